@@ -303,6 +303,13 @@ def gen_case(rng, pid, uid):
                 for i_ in range(0, 720):
                     at(s_, i_)["raise"] = "sameobj"
             spec["fault_storm"] = s_
+            if tracked and storm_mode != "disabled":
+                # marked attributes keep being assigned long into the storm (by the mode's own code and by components)
+                assigners = [x for x in sites["any"] if site_kind(x) in ("execute",) or x in ("R.teleopPeriodic",) or site_kind(x) == "mode.on_iteration"]
+                for _ in range(12):
+                    cn_, attr_, _m = rng.choice(tracked)
+                    if assigners:
+                        at(rng.choice(assigners), rng.randrange(255, 690)).setdefault("assign", []).append([cn_, attr_, rng.choice([1, "go", True, 0.25])])
             return spec
         for _ in range(rng.choice([1, 1, 2, 3])):
             if not pool:
